@@ -438,7 +438,7 @@ impl fmt::Display for Label {
         for ch in self.iter() {
             if matches!(
                 ch,
-                b' ' | b'.' | b'\\' | b'"' | b';' | b'(' | b')'
+                b' ' | b'.' | b'\\' | b'"' | b';' | b'(' | b')' | b'$'
             ) {
                 write!(f, "\\{}", ch as char)?;
             } else if !(0x20..0x7F).contains(&ch) {
